@@ -466,6 +466,22 @@ def run_termination(case):
     return {"iterations": its, "nsamples": out.nsamples(), "family": fam, "isp": isp, "kind": kind_}
 
 
+def run_extreme_tauleap(case):
+    """tau-leap with one channel whose propensity*dt is, by construction, >= 2^63 / infinite / (control) 1e17"""
+    use_repo()
+    engines.install()
+    import strengths as st
+    net = st.RDNetwork([st.Species("A", D=0.0, density=0)], [st.Reaction("2 A -> A", kf=case["kf"])])
+    system = st.RDSystem(net, st.RDGridSpace(w=1, h=1, d=1, cell_vol=1.0), state=[case["amount"]])
+    script = st.RDScript(system, t_sample=[0, 0.05], time_step=0.01, rng_seed=5, init_state_processing="none")
+    e = engines.get("tauleap")
+    e.setup(script)
+    e.iterate_n(3)
+    out = e.get_output()
+    e.finalize()
+    return {"nsamples": out.nsamples()}
+
+
 def run_fixed_step_count(case):
     use_repo()
     engines.install()
@@ -704,6 +720,21 @@ def main():
             run.count("fixed_step_count_checks", r_["value"]["n"])
             for b in r_["value"]["bad"]:
                 run.violation(b["what"][:60], b, mech={"what": "fixed-step-count"})
+        # ---------------- (E) tau-leap at extreme propensities ----------------
+        casesE = [{"name": "control lambda=1e17", "kf": 1.0, "amount": 3.2e9, "lambda": 1e17},
+                  {"name": "lambda=2.5e21 (>= 2^63)", "kf": 1.0, "amount": 5e11, "lambda": 2.5e21},
+                  {"name": "lambda=inf", "kf": 1e300, "amount": 1e10, "lambda": float("inf")}]
+        for c, r_ in zip(casesE, pmap("vf.checks.c10:run_extreme_tauleap", casesE, cpu_budget=8, fresh=True)):
+            run.count("extreme_tauleap_probes")
+            run.case(chash(c), nontrivial=True, sample=c)
+            if r_["status"] == "ok":
+                continue
+            if r_["status"] in ("hang", "crash"):
+                run.violation("tau-leap loop call does not return (extreme propensity)", {"case": c, "status": r_["status"], "cpu_s": r_.get("cpu")},
+                              mech={"what": r_["status"], "engine": "tauleap",
+                                    "propensity_times_dt_at_least_2^63_by_construction": bool(c["lambda"] >= 2.0 ** 63)})
+            else:
+                run.inconclusive_because("extreme tau-leap probe: %s" % r_["status"])
     finally:
         import shutil
         shutil.rmtree(pdir, ignore_errors=True)
